@@ -66,7 +66,7 @@ def run(ctx):
 
         # comparisons are answered "no"; anything else (np.any / np.all of data ...) gets its generic outcome and, through the
         # scenario mechanism, its special outcome on consistently specialised inputs
-        it, d = new_interp(ctx, chooser=lambda interp, node, cond: (False if cond_parts(cond) is not None else None),
+        it, d = new_interp(ctx, chooser=lambda interp, node, cond: (False if _comparison_like(cond) else None),
                            summaries={"decomp.tridiagonalize:householder_matrix": s_house})
         A = sym_quat("a", (n, n))
         A_before = A.copy()
@@ -228,6 +228,18 @@ def run(ctx):
     ctx.require_instances("C09.D1.accumulation", len([n for n in sizes if n > 2]))
     ctx.require_instances("C09.D1.reflectors", len([n for n in sizes if n > 2]))
     ctx.require_instances("C09.D2.cleanup", 4)
+
+
+def _comparison_like(cond):
+    """an order / tolerance comparison, or np.any / np.all over such comparisons (vectorised spelling of the same tests)"""
+    from qstatic.alg import is_unknown
+    if cond_parts(cond) is not None:
+        return cond_parts(cond)[0] in ("lt", "le", "gt", "ge")
+    why = getattr(cond, "why", None)
+    if isinstance(why, tuple) and len(why) == 2 and why[0] in ("any", "all"):
+        elems = [e for e in why[1] if is_unknown(e)]
+        return bool(elems) and all(_comparison_like(e) for e in elems)
+    return False
 
 
 def _facts(log, r, c):
